@@ -163,7 +163,9 @@ def calendar_compare_stub(ranks_ref: dict[str, int]):
         try:
             la = l.fields[mangle("_YearMonthDay", "__value")].name
             ra = r.fields[mangle("_YearMonthDay", "__value")].name
-            x, y = ranks_ref[la], ranks_ref[ra]
+            # the calendar order is carried by the logical atom <p>.date when present (packed order may differ, e.g. Hebrew scriptural)
+            x = ranks_ref.get(la[:-4] + ".date", ranks_ref[la]) if la.endswith(".ymd") else ranks_ref[la]
+            y = ranks_ref.get(ra[:-4] + ".date", ranks_ref[ra]) if ra.endswith(".ymd") else ranks_ref[ra]
         except (AttributeError, KeyError):
             return Iv(-float("inf"), float("inf"), False)
         return Iv(-float("inf"), -1) if x < y else (Iv(0, 0) if x == y else Iv(1, float("inf")))
@@ -183,6 +185,22 @@ def check_total_order(ctx: Ctx, rr: RuleResult, tname: str, methods: list[str], 
         st = dict(stubs or {})
         if tname in ("LocalDate", "YearMonth", "LocalDateTime"):
             st["CalendarSystem._compare"] = calendar_compare_stub(ranks_)
+            out1 = _orig_run(ctx_, f_, so_, params_, ranks_, st)
+            # second configuration: the packed year/month/day order is the reverse of the calendar order (as for months of the
+            # Hebrew scriptural numbering); code that compares packed values directly gives a different answer here
+            rk2 = dict(ranks_)
+            for k_, v_ in ranks_.items():
+                if k_.endswith(".ymd"):
+                    rk2[k_[:-4] + ".date"] = v_
+                    rk2[k_] = 2 - v_
+            st2 = dict(st)
+            st2["CalendarSystem._compare"] = calendar_compare_stub(rk2)
+            out2 = _orig_run(ctx_, f_, so_, params_, rk2, st2)
+            if out1.escaped or out2.escaped:
+                return Outcome(out1.values + out2.values, out1.raised + out2.raised, out1.escaped + out2.escaped)
+            if [repr(v) for v in out1.values] != [repr(v) for v in out2.values] and (out1.definite_bool != out2.definite_bool or out1.sign != out2.sign):
+                return Outcome(out1.values + out2.values, out1.raised, ["result depends on the packed value order, not on the calendar order"])
+            return out1
         return _orig_run(ctx_, f_, so_, params_, ranks_, st)
 
     for name in methods:
@@ -251,3 +269,33 @@ def check_total_order(ctx: Ctx, rr: RuleResult, tname: str, methods: list[str], 
                 rr.fail(f.qual, f"for key relation ({bad[0]}): {bad[1]}", ctx.loc(f))
             else:
                 rr.ok({"method": f.qual, "orderings": 3**n, "spec": name})
+
+
+def weak_orderings(n: int):
+    """All weak orderings of n labelled points as dense rank tuples."""
+    seen = set()
+    for t in itertools.product(range(n), repeat=n):
+        vals = sorted(set(t))
+        dense = tuple(vals.index(x) for x in t)
+        if dense not in seen:
+            seen.add(dense)
+            yield dense
+
+
+def local_date_model(name: str, cal: int = 0, pos: AV | None = None) -> Obj:
+    """LocalDate with separate atoms for the packed value (<name>.ymd / .ymdc) and the calendar order (<name>.date, used by the
+    CalendarSystem._compare summary), optionally with a day-number position on an abstract line."""
+    m_ = build("LocalDate", name, cal)
+    if pos is not None:
+        m_.obj.fields["_days_since_epoch"] = pos
+    return m_.obj
+
+
+def date_ranks(names_ranks: dict[str, int], reverse_packed: bool = False) -> dict[str, int]:
+    top = max(names_ranks.values()) if names_ranks else 0
+    rk: dict[str, int] = {}
+    for n, r in names_ranks.items():
+        rk[n + ".date"] = r
+        rk[n + ".ymdc"] = r
+        rk[n + ".ymd"] = (top - r) if reverse_packed else r
+    return rk
